@@ -185,9 +185,11 @@ def check(model, rep, tier):
       raise core.AnalysisError('reaching_fndefs._NodeState.%s missing' % op)
     mp = m.params()[0]
     n1, b1 = pat.first(m.node, '_R_ = _NodeState(self.value)')
-    ok = b1 is not None and pat.has(m.node, 'return _R_', b1) and pat.has(
+    ok = b1 is not None and pat.has(m.node, 'return _R_', b1) and (pat.has(
         m.node, ('_R_.value.update(%s.value)' % mp) if want == 'union' else
-        ('_R_.value.add(%s)' % mp), b1)
+        ('_R_.value.add(%s)' % mp), b1) or pat.has(
+            m.node, ('_R_.value |= %s.value' % mp) if want == 'union' else
+            ('_R_.value |= {%s}' % mp), b1))
     rep.check(ok, 'LV-CLOSURE', '%s:%s' % (m.site, want),
               'the state operator must build a new state containing the old one '
               '(no aliasing of the stored state)', line=m.node.lineno)
